@@ -8,14 +8,7 @@ CONSTANTS
   PopHead = FALSE
   MaxCalls = 2
   WakeCheck = TRUE
-  Tids = {i0, i1, i2}
+  Tids = {i0, i1}
   GiveBack = TRUE
-INVARIANT ResolveReturns
-INVARIANT NoLostWakeup
-INVARIANT RequestOut
-INVARIANT Recorded
-INVARIANT SnlFits
-INVARIANT PoolConserved
-INVARIANT NeverStarves
-SYMMETRY TidSym
 CHECK_DEADLOCK FALSE
+PROPERTY NeverRefilled
